@@ -27,7 +27,7 @@ func TestMain(m *testing.M) {
 			"(3) structural: nil Key, nil ParentKeyMeta, empty and short slices (0..28 bytes), extreme integers, through Decrypt and through Load with a loader that errs, returns nothing or returns garbage; "+
 			"(4) corrupted store rows behind a genuine record: bit flips / truncations of the IK and SK rows' key bytes, rows without parent meta, parent meta naming a missing or wrong key, swapped and missing rows; (5) rapid-drawn mutation programs over the pool and the store; (6) thorough: native fuzz target over mutation programs; "+
 			"(7) key rows damaged IN THE DATABASE behind the real SQL (3 dialects) and DynamoDB (v1, v2) metastores: ~30 damaged key_record texts (null, wrong JSON types, truncated, missing / non-base64 Key, broken ParentKeyMeta ...) and ~24 damaged items (KeyRecord missing / NULL / wrong attribute types ...), on the IK row and on the SK row, key caching on and off, decrypt followed by the partition's next encrypt; "+
-			"(7b) the recombination part also over the real MemoryMetastore; key rows stored under Created 0 with records whose parent meta says Created 0 (the SDK's own internal marker for "latest"), decrypted four times each; (8) runs of 1300 (thorough 9000) decrypts, half of them of mutated records, on one session for every key-cache eviction policy x capacity {1, 99, 100, 128} x shared on/off, long enough for the policies' periodic maintenance (TinyLFU sample periods). "+
+			"(7b) the recombination part also over the real MemoryMetastore; key rows stored under Created 0 with records whose parent meta says Created 0 (the SDK's own internal marker for the latest key), decrypted four times each; (8) runs of 1300 (thorough 9000) decrypts, half of them of mutated records, on one session for every key-cache eviction policy x capacity {1, 99, 100, 128} x shared on/off, long enough for the policies' periodic maintenance (TinyLFU sample periods). "+
 			"Oracle: the call returns an error, or bytes equal to the payload originally encrypted under the genuine record whose Data the input carries; a panic is a violation. "+
 			"One evaluation = one decrypt of one mutated input. Non-trivial = the input differs from every genuine record (or a store row differs from what the SDK wrote); enumerated mutations are distinct by construction",
 		"which error is returned is not asserted; a change of unauthenticated metadata only (DRK Created) may succeed with the original payload")
